@@ -976,6 +976,8 @@ func runC02R3(c *Ctx) {
 				for _, in := range p.callersOfStatic(ps) {
 					c.check(in.Parent() == connSend, "R3", "caller of sendPacket: "+fnName(in.Parent()), pos(in), "only conn.sendPacket frames packets", "packet framed outside conn.sendPacket (no write lock, no ordering)")
 				}
+			} else {
+				c.missing("R3", "sendPacket")
 			}
 		}
 	}
